@@ -97,7 +97,15 @@ func (interp *Interpreter) gta(root *node, rpath, importPath, pkgName string) ([
 				if typ.isBinMethod {
 					typ = valueTOf(typ.methodCallType(), isBinMethod(), withScope(sc))
 				}
-				sc.sym[dest.ident] = &symbol{kind: varSym, global: true, index: sc.add(typ), typ: typ, rval: val, node: n}
+				// A variable defined again (REPL) is a new variable. Its initializer
+				// refers to the previous one, as in 'x := x + 1'.
+				var prev *symbol
+				if old := sc.sym[dest.ident]; old != nil && old.kind == varSym && old.global {
+					if prev = old; old.node == n {
+						prev = old.prev // The definition is revisited.
+					}
+				}
+				sc.sym[dest.ident] = &symbol{kind: varSym, global: true, index: sc.add(typ), typ: typ, rval: val, node: n, prev: prev}
 				if n.anc.kind == constDecl {
 					sc.sym[dest.ident].kind = constSym
 				}
